@@ -10,6 +10,8 @@ Record case := mkcase {
   cid : N;
   cfenc : flags;
   cfdec : flags;
+  cencb : bool;   (* typeInfo.flagEncBuiltin / flagDecBuiltin of the type, read through the hook *)
+  cdecb : bool;
   o_enc : N;      (* which custom hook ran during Encode: 0 none, 1 ext, 2 selfer, 3 binary, 4 json, 5 text *)
   o_dec : N }.
 
@@ -20,8 +22,9 @@ Definition hookclass (m : mech) : N :=
   end%N.
 
 Definition check_case (c : case) : bool :=
-  N.eqb (hookclass (fst (enc_choice (cfenc c)))) (o_enc c) &&
-  N.eqb (hookclass (fst (dec_choice (cfdec c)))) (o_dec c).
+  (* the observation is made at top level, value passed by value *)
+  N.eqb (hookclass (enc_mech_at PTop (cencb c) (cfenc c))) (o_enc c) &&
+  N.eqb (hookclass (dec_mech_at PTop (cdecb c) (cfdec c))) (o_dec c).
 
 Definition mismatches (cs : list case) : list N :=
   map cid (filter (fun c => negb (check_case c)) cs).
